@@ -66,6 +66,7 @@ Record shape := {
   spath : option path;        (* Some p: property shape *)
   deact : bool;
   ssev : term;
+  smsgs : list term;          (* declared sh:message values *)
   stargets : targets;
   scomps : list comp
 }.
@@ -80,15 +81,16 @@ Fixpoint lookup (E:env) (t:term) : option shape :=
 
 (* ---- results ---- *)
 Inductive vresult :=
-  VR (focus:term) (value:option term) (path:option term) (comp:N) (src:term) (sev:term) (details:list vresult).
+  VR (focus:term) (value:option term) (path:option term) (comp:N) (src:term) (sev:term) (msgs:list term) (details:list vresult).
 
-Definition rfocus (r:vresult) := match r with VR f _ _ _ _ _ _ => f end.
-Definition rvalue (r:vresult) := match r with VR _ v _ _ _ _ _ => v end.
-Definition rpath (r:vresult) := match r with VR _ _ p _ _ _ _ => p end.
-Definition rcomp (r:vresult) := match r with VR _ _ _ c _ _ _ => c end.
-Definition rsrc (r:vresult) := match r with VR _ _ _ _ s _ _ => s end.
-Definition rsev (r:vresult) := match r with VR _ _ _ _ _ s _ => s end.
-Definition rdetails (r:vresult) := match r with VR _ _ _ _ _ _ d => d end.
+Definition rfocus (r:vresult) := match r with VR f _ _ _ _ _ _ _ => f end.
+Definition rvalue (r:vresult) := match r with VR _ v _ _ _ _ _ _ => v end.
+Definition rpath (r:vresult) := match r with VR _ _ p _ _ _ _ _ => p end.
+Definition rcomp (r:vresult) := match r with VR _ _ _ c _ _ _ _ => c end.
+Definition rsrc (r:vresult) := match r with VR _ _ _ _ s _ _ _ => s end.
+Definition rsev (r:vresult) := match r with VR _ _ _ _ _ s _ _ => s end.
+Definition rmsgs (r:vresult) := match r with VR _ _ _ _ _ _ m _ => m end.
+Definition rdetails (r:vresult) := match r with VR _ _ _ _ _ _ _ d => d end.
 
 Definition cres := (bool * list vresult)%type.
 
